@@ -5,7 +5,7 @@
    Stated for EVERY configuration (any jubilee height, any first inscription height, sat index on or
    off), every chain with pairwise distinct transaction ids and arbitrary (already parsed) envelopes,
    whenever indexing succeeds (no panic). *)
-From OrdV Require Import Base.Prelude Generated Index.Inscr Proofs.Inscr_tables Proofs.Inscr_proofs.
+From OrdV Require Import Base.Prelude Generated Index.Inscr Proofs.Inscr_tables Proofs.Inscr_proofs Proofs.Inscr_c04 Proofs.Inscr_ids.
 
 Theorem C05_numbering : forall cfg c st,
   NoDup (chain_txids c) ->
@@ -53,6 +53,20 @@ Proof.
   intros cfg st h t ents F tiv H. destruct (floating_of_props _ _ _ _ _ _ _ H) as (A & B & _). auto.
 Qed.
 
+(* ... more precisely: listed in the order in which the code walks the envelopes (inputs in order, the
+   envelopes of an input in order) they carry the indices 0, 1, 2, ...; and when the parser's envelopes come in
+   input order and name existing inputs (envs_ok) every envelope of a non-coinbase transaction gets one, so the
+   index of an inscription is the position of its envelope among all envelopes of the transaction *)
+Theorem C05_ids_in_envelope_order : forall cfg st h t ents F tiv,
+  floating_of cfg st h t ents = Ok (F, tiv) ->
+  new_ids F = map (fun k => (t_id t, N.of_nat k)) (seq 0 (length (new_ids F))) /\
+  (tx_plain t -> length ents = length (t_ins t) -> envs_ok t -> length (new_ids F) = length (t_envs t)).
+Proof.
+  intros cfg st h t ents F tiv H. split.
+  - exact (ids_in_order _ _ _ _ _ _ _ H).
+  - intros HP HL HE. exact (ids_count _ _ _ _ _ _ _ HP HL HE H).
+Qed.
+
 (* Non-vacuity: regtest configuration, genesis + one funding block + a reveal with a clean envelope and a
    second envelope in the same input (cursed before the jubilee): one blessed, one cursed. *)
 Definition c05_env (off : N) : envelope := mkEnv 0 off false false false false false false None false [].
@@ -73,3 +87,4 @@ Qed.
 
 Print Assumptions C05_numbering.
 Print Assumptions C05_ids_of_a_transaction.
+Print Assumptions C05_ids_in_envelope_order.
